@@ -85,6 +85,13 @@ def k3_shapes(tier):
             scheds = [('f',)]
         for s in scheds:
             out.append({'blocks': blocks, 'flush': list(s) + ['n'], 'reopen': s[0] == 'h', 'collide': collide})
+    # a history-only (or full) flush right after the LAST block, then the final full flush at the same height
+    # (what on_caught_up does at the end of the initial sync)
+    tails = [(['n', 'h'], True), (['f', 'h'], False), (['h', 'h'], True), (['n', 'f'], False)]
+    lists = [b for b, c in _blocks(tier) if len(b) == 2 and not c][:2 if tier == 'quick' else 5]
+    for blocks in lists:
+        for fl, reopen in (tails[:3] if tier == 'quick' else tails):
+            out.append({'blocks': blocks, 'flush': fl, 'reopen': reopen, 'collide': []})
     return out
 
 
